@@ -85,19 +85,8 @@ double verif_toReal(long long q)
 #define ARR(p) __CPROVER_object_upto(p, ACAP * sizeof(*(p)))
 #define OUT_ALL __CPROVER_object_upto(out, 16 * sizeof(int))
 
-/* restricted variants of instances whose full contract fails on the unchanged tree (see units/lpmod_findings):
- * NOKEPT = no basis is kept outside the solver; NOT_ONLYREAL = a rational LP exists */
-#if defined(NOKEPT)
-#define REQ_VARIANT __CPROVER_requires(loaded || !hasBasis)
-#elif defined(NOT_ONLYREAL)
-#define REQ_VARIANT __CPROVER_requires(syncmode != SYNCMODE_ONLYREAL)
-#else
-#define REQ_VARIANT
-#endif
-
 /* shape of the state every instance starts from (all arrays are fresh objects of the model capacity) */
 #define REQ_STATE \
-   REQ_VARIANT \
    __CPROVER_requires(0 <= nr && nr <= CAP && 0 <= nc && nc <= CAP && 0 <= qnr && qnr <= CAP && 0 <= qnc && qnc <= CAP) \
    __CPROVER_requires(0 <= nrt && nrt <= CAP && 0 <= nct && nct <= CAP && 0 <= nbr && nbr <= CAP && 0 <= nbc && nbc <= CAP && 0 <= n && n <= CAP) \
    __CPROVER_requires(SYNCMODE_ONLYREAL <= syncmode && syncmode <= SYNCMODE_MANUAL) \
@@ -175,13 +164,8 @@ double verif_toReal(long long q)
 #define OUT_ONBS out[6]
 #endif
 
-/* _rangeTypeReal uses the global `infinity`, _rangeTypeRational the parameter INFTY: instances that compare the two are
- * stated for the default parameter value unless ANY_INFTY is defined */
-#ifdef ANY_INFTY
-#define REQ_INFTY
-#else
-#define REQ_INFTY __CPROVER_requires(infty == K_REAL_INFINITY)
-#endif
+/* the bound-type specification RT_Q is always taken against the parameter INFTY (_rationalPosInfty), for EVERY admissible
+ * value of the parameter (REQ_STATE: 1e10 <= infty <= 1e100), never against the global real `infinity` */
 
 #include KINDFILE
 
